@@ -75,6 +75,68 @@ theorem loadInto_lands (canAlloc : Nat → Bool) (pre slots h : Nat) (rest : Lis
       have : max h slots = h := by omega
       simp [this]
 
+/-! ### completeness: what a store can write is accepted, and lands where it was -/
+
+/-- **every document a store writes loads back handle for handle**: a store lists its items in handle order, so the
+temporary identifiers are strictly increasing (with gaps where items were removed); such a document is *accepted*
+(the other theorems only speak about accepted documents) as long as the allocator grants the gaps, and every item
+lands at exactly the handle it names -/
+theorem load_accepts_increasing : ∀ (hs : List Nat) (slots : Nat),
+    (∀ x ∈ hs, slots ≤ x) → hs.Pairwise (· < ·) → load (fun _ => true) slots (hs.map some) = some hs := by
+  intro hs
+  induction hs with
+  | nil => intro slots _ _; rfl
+  | cons h rest ih =>
+    intro slots hge hp
+    have hle : slots ≤ h := hge h (List.mem_cons_self)
+    rw [List.pairwise_cons] at hp
+    have hrec := ih (h + 1) (fun x hx => by have := hp.1 x hx; omega) hp.2
+    simp only [List.map_cons, load]
+    have c1 : ¬ slots > h := by omega
+    simp [c1, hrec]
+
+/-- the same for a document without any temporary identifier (every item has a public one, or the writer left them
+out): the items land densely, one after the other, from the first free slot — and nothing is ever refused -/
+theorem loadInto_dense (canAlloc : Nat → Bool) (pre : Nat) : ∀ (n slots : Nat),
+    loadInto canAlloc pre slots (List.replicate n none) = some (List.range' slots n) := by
+  intro n
+  induction n with
+  | zero => intro slots; rfl
+  | succ n ih => intro slots; simp only [List.replicate_succ, loadInto, ih, List.range'_succ, Option.map_some]
+
+/-- **more there already never makes a merge fail**: a document accepted by a store that held `pre` annotations when
+the merge began is accepted, with the same landing, when it held more (the bound on a temporary identifier only
+loosens) — so the refusal `slots > h + pre` is the only place `pre` matters -/
+theorem loadInto_mono_pre (canAlloc : Nat → Bool) (pre pre' : Nat) (hpre : pre ≤ pre') :
+    ∀ (items : List (Option Nat)) (slots : Nat) (land : List Nat),
+    loadInto canAlloc pre slots items = some land → loadInto canAlloc pre' slots items = some land := by
+  intro items
+  induction items with
+  | nil => intro slots land h; exact h
+  | cons it rest ih =>
+    intro slots land h
+    cases it with
+    | none =>
+      simp only [loadInto, Option.map_eq_some_iff] at h ⊢
+      obtain ⟨l', hl', rfl⟩ := h
+      exact ⟨l', ih _ _ hl', rfl⟩
+    | some hd =>
+      simp only [loadInto] at h ⊢
+      split at h
+      · cases h
+      · rename_i c1
+        split at h
+        · cases h
+        · rename_i c2
+          have c1' : ¬ slots > hd + pre' := by omega
+          simp only [c1', if_false, c2]
+          simp only [Option.map_eq_some_iff] at h ⊢
+          obtain ⟨l', hl', rfl⟩ := h
+          exact ⟨l', ih _ _ hl', rfl⟩
+
+example : load (fun _ => true) 0 ([0, 2, 3, 7].map some) = some [0, 2, 3, 7] := by decide
+example : loadInto (fun _ => false) 2 2 (List.replicate 3 none) = some [2, 3, 4] := by decide
+
 /-! ### non-vacuity: a document written by a store with three annotations (`!A0`, `!A2` after a removal), merged into a
 store that holds two -/
 example : loadInto (fun _ => true) 2 2 [some 0, some 2, none] = some [2, 3, 4] := by decide
